@@ -43,6 +43,10 @@ fn run_typed<F: Coded>(c: &Case, st: &mut Stats) -> CheckResult {
     }
     let rb = Bounded::from_raw_parts(c.start, c.prefill, slots);
     let mut buffered = probe.buffered(rb);
+    // nothing has run empty on demand yet: building the adaptor pulls nothing
+    ensure!(counters.pulls() == 0, "buffered() pulled {} source frames at construction (before anything was read)", counters.pulls());
+    let ex0 = buffered.is_exhausted();
+    ensure!(ex0 == (c.prefill == 0 && c.src_len == Some(0)), "straight after construction is_exhausted() = {} ({} frames pre-filled, source length {:?})", ex0, c.prefill, c.src_len);
     // model: queue of expected stream elements currently buffered; `None` = equilibrium padding
     let mut q: VecDeque<Option<u64>> = (0..c.prefill).map(|i| Some(PREFILL_BASE + i as u64)).collect();
     let mut src_pos: u64 = 0;
